@@ -28,8 +28,37 @@ ASSUMPTIONS = [
 
 XS = [1.0, 2.0, 4.0]
 # row / column coordinates are deliberately not in ascending order
-RV = [20, 10]
-QV = ["v", "u"]
+class _GridVals:
+    """labels of the row / column grid: integers and strings, or (for half of
+    the cases, chosen by a hash of the case) floats including 0.0, a multiple
+    of ten and a fraction"""
+    def __init__(self, plain, floats):
+        self.plain, self.floats = plain, floats
+
+    def vals(self):
+        return self.floats if _GRID_FLOAT[0] else self.plain
+
+    def __getitem__(self, i):
+        return self.vals()[i]
+
+
+_GRID_FLOAT = [False]
+RV = _GridVals([20, 10], [10.0, 0.0])
+QV = _GridVals(["v", "u"], [100.0, 2.5])
+
+
+def _titled(text, name, want):
+    """does the text name the coordinate value?  numbers may be written in
+    any form that reads back as the value (4 decimals are enough)"""
+    if not text.startswith(name + " = "):
+        return False
+    got = text[len(name) + 3:]
+    if isinstance(want, float):
+        try:
+            return abs(float(got) - want) < 5e-5
+        except ValueError:
+            return False
+    return got == str(want)
 # (neither ascending nor descending: the first and last values are not the
 # extremes of any prefix of length >= 3)
 # (not monotonic; two values that only differ beyond the fourth decimal)
@@ -121,6 +150,14 @@ def cases(tier, seed):
                     yield {"kind": kind, "nx": 2, "nz": nz, "mask": [],
                            "inf": False, "ztype": ztype, "variant": "z",
                            "grid": None, "opts": o}
+        # a label that occurs twice on the z coordinate: still one series per
+        # entry, each with its own points
+        for nz, ztype, variant, o in itertools.product(
+                (3, 4), ("numdup", "strdup"), ("z", "yerr", "grid"),
+                ({}, {"colors": True}, {"markers": True})):
+            yield {"kind": kind, "nx": 3, "nz": nz, "mask": [(1, 1)],
+                   "inf": False, "ztype": ztype, "variant": variant,
+                   "grid": "col" if variant == "grid" else None, "opts": o}
         for o in ({}, {"colors": True}):
             for which in ("auto_1d", "auto_2d", "auto_2dx", "auto_2dx_sq"):
                 yield {"kind": "auto_" + kind, "which": which, "opts": o}
@@ -188,7 +225,9 @@ def make_line_ds(case):
     grid = case.get("grid")
     nr = 2 if grid in ("row", "both") else 1
     nq = 2 if grid in ("col", "both") else 1
-    zs = {"num": ZNUM, "str": ZSTR, "int": ZINT}[case["ztype"]][:nz]
+    zs = {"num": ZNUM, "str": ZSTR, "int": ZINT,
+          "numdup": [2.0, 10.0, 10.0, 0.5], "strdup": ["q", "p", "p", "zz"]
+          }[case["ztype"]][:nz]
     shape = (nx, nz, nr, nq)
     y = np.empty(shape)
     for idx in np.ndindex(*shape):
@@ -243,6 +282,7 @@ def check_case(case):
 
     try:
         kind = case["kind"]
+        _GRID_FLOAT[0] = core.pick([case, "gridfloat"], 2) == 0
         if core.pick([case, "prior"], 4) == 0:
             other_plots()
         if kind in ("lineplot", "scatter"):
@@ -347,16 +387,18 @@ def grid_labels(key, ax, ir, iq, nr, nq):
     """column titles sit on the top row only, row labels on the right-most
     column only; no other panel carries a coordinate of the grid"""
     vio = []
-    want = "q = %s" % QV[iq] if (ir == 0 and nq == 2) else ""
-    if ax.get_title() != want:
+    if ir == 0 and nq == 2:
+        if not _titled(ax.get_title(), "q", QV[iq]):
+            vio.append((key("panel-title"), "panel (%d,%d) titled %r, "
+                        "expected q = %r" % (ir, iq, ax.get_title(), QV[iq])))
+    elif ax.get_title() != "":
         vio.append((key("panel-title"), "panel (%d,%d) titled %r, "
-                    "expected %r" % (ir, iq, ax.get_title(), want)))
+                    "expected none" % (ir, iq, ax.get_title())))
     lab = ax.get_ylabel()
     if nr == 2 and iq == nq - 1:
-        want = "r = %s" % RV[ir]
-        if lab != want:
+        if not _titled(lab, "r", RV[ir]):
             vio.append((key("panel-rowlabel"), "panel (%d,%d) labelled "
-                        "%r, expected %r" % (ir, iq, lab, want)))
+                        "%r, expected r = %r" % (ir, iq, lab, RV[ir])))
     elif lab.startswith("r = ") or lab.startswith("q = "):
         vio.append((key("panel-rowlabel"), "panel (%d,%d) labelled %r"
                     % (ir, iq, lab)))
@@ -494,7 +536,7 @@ def check_lines(case):
                     cv = before["cline"].values.tolist()
                     exp = expected_color(ds, case, opts, cv, cv, False)
                 else:
-                    string_z = case["ztype"] == "str" and variant != "multi"
+                    string_z = case["ztype"] in ("str", "strdup") and variant != "multi"
                     exp = expected_color(ds, case, opts, list(zs), list(zs),
                                          string_z)
                 import matplotlib.colors as mc
